@@ -28,6 +28,7 @@ import (
 	"strings"
 	"sync"
 	"time"
+	"unsafe"
 
 	"keepverif/harness/hx"
 
@@ -319,8 +320,12 @@ func execOp(o *opT) []string {
 		})
 	case "ann":
 		return execAnnouncer(o, mv)
+	case "annh":
+		return execAnnouncerHistory(o, mv)
 	case "coord":
 		return execFollower(o, mv)
+	case "coordh":
+		return execFollowerHistory(o, mv)
 	case "done":
 		return execDone(o, mv)
 	}
@@ -469,6 +474,129 @@ func execFollower(o *opT, mv *group.MembershipValidator) []string {
 	return out
 }
 
+// execAnnouncerHistory delivers the whole history inside ONE announcement window and returns the
+// ready list (one element per ready member).
+func execAnnouncerHistory(o *opT, mv *group.MembershipValidator) []string {
+	ch := newFchan()
+	announcer.RegisterUnmarshaller(ch)
+	a := announcer.New(fmt.Sprintf("p%d", o.aux1), ch, mv)
+	ctx, cancel := context.WithCancel(context.Background())
+	type res struct {
+		ready []group.MemberIndex
+		err   error
+	}
+	done := make(chan res, 1)
+	go func() {
+		r, err := a.Announce(ctx, o.self(), session(o.sess))
+		done <- res{r, err}
+	}()
+	ch.waitRegistered()
+	for _, m := range o.msgs {
+		payload := ch.unmarshaler()
+		bytes, err := proto.Marshal(&announcerpb.AnnouncementMessage{
+			SenderID:   uint32(m.idx),
+			ProtocolID: fmt.Sprintf("p%d", m.aux1),
+			SessionID:  session(m.sess),
+		})
+		if err != nil || payload.Unmarshal(bytes) != nil {
+			panic("harness: announcement unmarshal")
+		}
+		ch.deliver(&fmsg{payload: payload, key: keyBytes(m.netKey)})
+	}
+	s, seen := sentinel()
+	ch.deliver(s)
+	select {
+	case <-seen:
+	case <-time.After(waitTimeout):
+		panic("harness: announcer did not consume messages")
+	}
+	cancel()
+	r := <-done
+	if r.err != nil {
+		return []string{"err"}
+	}
+	out := make([]string, len(r.ready))
+	for i, x := range r.ready {
+		out[i] = fmt.Sprint(x)
+	}
+	return out
+}
+
+// execFollowerHistory delivers the whole history to ONE follower routine: faults in order and, if a
+// proposal was returned, the position of the message that carried it.
+func execFollowerHistory(o *opT, mv *group.MembershipValidator) []string {
+	addrs := make([]chain.Address, len(o.ops))
+	for i, a := range o.ops {
+		addrs[i] = address(a)
+	}
+	selfs := make([]group.MemberIndex, len(o.selfs))
+	for i, s := range o.selfs {
+		selfs[i] = uint8(s)
+	}
+	allowed := make([]tbtc.WalletActionType, len(o.allowed))
+	for i, a := range o.allowed {
+		allowed[i] = tbtc.WalletActionType(a)
+	}
+	ch := newFchan()
+	ctx, cancel := context.WithCancel(context.Background())
+	type res struct {
+		p      tbtc.CoordinationProposal
+		faults []tbtc.CoordinationFaultType
+	}
+	done := make(chan res, 1)
+	go func() {
+		p, f, _ := tbtc.VerifC12FollowerRoutine(ctx, fakeChain{}, walletKey, addrs, selfs, ch, mv,
+			address(o.leader), uint64(o.aux2), allowed)
+		done <- res{p, f}
+	}()
+	ch.waitRegistered()
+	props := make([]*proposal, len(o.msgs))
+	for i, m := range o.msgs {
+		props[i] = &proposal{tbtc.WalletActionType(m.action)}
+		ch.deliver(&fmsg{
+			payload: tbtc.VerifC12NewCoordinationMessage(m.idx, uint64(m.aux2), walletHash(m.aux1, o.aux1), props[i]),
+			key:     keyBytes(m.netKey),
+		})
+	}
+	s, seen := sentinel()
+	ch.deliver(s)
+	var r res
+	select {
+	case <-seen:
+		cancel()
+		r = <-done
+	case r = <-done:
+		cancel()
+	case <-time.After(waitTimeout):
+		panic("harness: follower did not consume messages")
+	}
+	var out []string
+	for _, f := range r.faults {
+		switch f {
+		case tbtc.FaultLeaderImpersonation:
+			out = append(out, "fault-imp")
+		case tbtc.FaultLeaderMistake:
+			out = append(out, "fault-mistake")
+		case tbtc.FaultLeaderIdleness:
+			if r.p != nil {
+				out = append(out, "idle-with-proposal")
+			}
+		default:
+			out = append(out, "fault-unknown")
+		}
+	}
+	if r.p != nil {
+		pos := -1
+		for i := range props {
+			if r.p == tbtc.CoordinationProposal(props[i]) {
+				pos = i
+			}
+		}
+		out = append(out, fmt.Sprintf("stored@%d", pos))
+	}
+	return out
+}
+
 // execDone feeds the messages in order to one listening done check.
 func execDone(o *opT, mv *group.MembershipValidator) []string {
 	ch := newFchan()
@@ -520,6 +648,9 @@ func exec(op string) (string, string) {
 	o, ok := parse(op)
 	if !ok {
 		return "bad-op", "bad"
+	}
+	if o.step == "annh" || o.step == "coordh" {
+		return execHistory(o)
 	}
 	out := execOp(o)
 	if out == nil && len(o.msgs) > 0 {
@@ -581,6 +712,49 @@ func exec(op string) (string, string) {
 	return strings.Join(out, ","), strings.Join(ts, "+")
 }
 
+// execHistory: one window / one routine over the whole history.
+func execHistory(o *opT) (string, string) {
+	out := execOp(o)
+	tags := map[string]bool{o.step: true}
+	confirmed := map[int]bool{} // keys that already sent an announcement for a seat they hold
+	for _, m := range o.msgs {
+		owner := 0
+		if m.idx >= 1 && int(m.idx) <= len(o.ops) {
+			owner = o.ops[m.idx-1]
+		}
+		if owner != 0 && owner == m.netKey && m.sess == o.sess && m.aux1 == o.aux1 {
+			confirmed[m.netKey] = true
+		} else if owner != 0 && owner != m.netKey && confirmed[m.netKey] && m.sess == o.sess && m.aux1 == o.aux1 {
+			tags["valid-then-spoof"] = true
+		}
+	}
+	seen := map[string]bool{}
+	for _, m := range o.msgs {
+		k := fmtMsg(m)
+		if seen[k] {
+			tags["hist-dup"] = true
+		}
+		seen[k] = true
+	}
+	for _, x := range out {
+		if strings.HasPrefix(x, "stored@") {
+			tags["hist-accepted"] = true
+		}
+		if strings.HasPrefix(x, "fault") {
+			tags["hist-fault"] = true
+		}
+	}
+	if o.step == "annh" && len(out) > 2 {
+		tags["hist-ready"] = true
+	}
+	var ts []string
+	for t := range tags {
+		ts = append(ts, t)
+	}
+	sortStrings(ts)
+	return hx.JoinStrs(out), strings.Join(ts, "+")
+}
+
 func sortStrings(s []string) {
 	for i := 1; i < len(s); i++ {
 		for j := i; j > 0 && s[j] < s[j-1]; j-- {
@@ -592,19 +766,21 @@ func sortStrings(s []string) {
 // ---- generator ------------------------------------------------------------
 
 var variants = map[string][]string{
-	"mv":    {"-"},
-	"gjkr":  {"epk/epk", "commit/shares", "commit/commitments", "accuse/accuse", "points/points", "paccuse/paccuse", "reveal/reveal"},
-	"bres":  {"-"},
-	"tdkg":  {"epk/epk", "symkey/epk", "tss1/tss1", "tss2/tss2", "tss3/tss3", "final/final", "epk/final", "tss3/epk"},
-	"tres":  {"-"},
-	"tsig":  {"epk/epk", "symkey/epk", "tss1/tss1", "tss2/tss5", "tss3/tss9", "tss4/epk", "tss5/tss5", "tss6/tss1", "tss7/tss9", "tss8/epk", "tss9/tss9"},
-	"inact": {"-"},
-	"ann":   {"-"},
-	"coord": {"-"},
-	"done":  {"-"},
+	"mv":     {"-"},
+	"gjkr":   {"epk/epk", "commit/shares", "commit/commitments", "accuse/accuse", "points/points", "paccuse/paccuse", "reveal/reveal"},
+	"bres":   {"-"},
+	"tdkg":   {"epk/epk", "symkey/epk", "tss1/tss1", "tss2/tss2", "tss3/tss3", "final/final", "epk/final", "tss3/epk"},
+	"tres":   {"-"},
+	"tsig":   {"epk/epk", "symkey/epk", "tss1/tss1", "tss2/tss5", "tss3/tss9", "tss4/epk", "tss5/tss5", "tss6/tss1", "tss7/tss9", "tss8/epk", "tss9/tss9"},
+	"inact":  {"-"},
+	"ann":    {"-"},
+	"annh":   {"-"},
+	"coord":  {"-"},
+	"coordh": {"-"},
+	"done":   {"-"},
 }
 
-var steps = []string{"mv", "gjkr", "bres", "tdkg", "tsig", "tres", "inact", "ann", "coord", "done"}
+var steps = []string{"mv", "gjkr", "bres", "tdkg", "tsig", "tres", "inact", "ann", "coord", "done", "annh", "coordh"}
 
 func fmtMsg(m msgT) string {
 	s := 0
@@ -641,7 +817,7 @@ func baseOp(r *hx.Rng, step string, ops []int) *opT {
 	selfSeat := r.Range(1, maxI(1, minI(n, 255)))
 	o.selfs = []int{selfSeat}
 	switch step {
-	case "coord":
+	case "coord", "coordh":
 		if n > 0 {
 			o.selfs = seatsOf(ops, ops[selfSeat-1])
 			if r.Chance(1, 4) && len(o.selfs) > 1 {
@@ -706,7 +882,7 @@ func randMsg(r *hx.Rng, o *opT, keys int) msgT {
 	if len(o.allowed) > 0 && r.Chance(2, 3) {
 		m.action = hx.Pick(r, o.allowed)
 	}
-	if o.step == "coord" && r.Chance(1, 2) && o.leader != 0 {
+	if (o.step == "coord" || o.step == "coordh") && r.Chance(1, 3) && o.leader != 0 {
 		// the leader's first seat, sent by the leader
 		if s := seatsOf(o.ops, o.leader); len(s) > 0 {
 			m.idx, m.netKey, m.msgKey = uint8(s[0]), o.leader, o.leader
@@ -722,7 +898,7 @@ func exhaustiveOps(r *hx.Rng) []string {
 	for _, step := range steps {
 		for ci, ops := range configs {
 			o := baseOp(r, step, ops)
-			if step == "coord" && len(o.allowed) == 0 {
+			if (step == "coord" || step == "coordh") && len(o.allowed) == 0 {
 				o.allowed = []int{1}
 			}
 			n := len(ops)
@@ -750,13 +926,64 @@ func exhaustiveOps(r *hx.Rng) []string {
 	return out
 }
 
+// productionSweepOps: groups of 64 and 100 seats; for every step one sender key claims EVERY index
+// 0..n+2 and 255 (all distances between the claim and the sender's own seats).
+func productionSweepOps(r *hx.Rng) []string {
+	var out []string
+	for _, ns := range []int{64, 100} {
+		seats := make([]int, ns)
+		for j := range seats {
+			seats[j] = r.Range(1, 6)
+		}
+		for _, step := range steps {
+			o := baseOp(r, step, seats)
+			key := r.Range(1, 6)
+			switch step {
+			case "coord", "coordh":
+				o.allowed = []int{1, 2}
+				if r.Chance(1, 2) {
+					// a sender that is not the leader, so that the routine sees the whole sweep
+					for o.leader == key {
+						key = key%6 + 1
+					}
+				}
+			case "done":
+				o.allowed = nil
+				for s := 1; s <= ns; s++ {
+					o.allowed = append(o.allowed, s)
+				}
+			}
+			idxs := []int{255}
+			for i := 0; i <= ns+2; i++ {
+				idxs = append(idxs, i)
+			}
+			for _, idx := range idxs {
+				m := msgT{idx: uint8(idx), netKey: key, msgKey: key, sess: o.sess, aux1: o.aux1, aux2: o.aux2, sig: true, action: 1}
+				o.msgs = append(o.msgs, m)
+			}
+			out = append(out, fmtOp(o))
+		}
+	}
+	return out
+}
+
 func gen(r *hx.Rng, n int, tier string) []string {
 	ops := exhaustiveOps(r)
+	if n > 0 {
+		ops = append(ops, productionSweepOps(r)...)
+	}
 	for i := 0; i < n; i++ {
 		step := steps[i%len(steps)]
 		var seats []int
 		keys := 4
 		switch {
+		case r.Chance(1, 6):
+			// production group sizes (beacon 64, tbtc 100), six operators
+			ns := hx.Pick(r, []int{64, 100, 33, 65, 97})
+			keys = 7
+			for j := 0; j < ns; j++ {
+				seats = append(seats, r.Range(1, 6))
+			}
 		case r.Chance(1, 25):
 			// wrap-around territory: 254..257 seats, the last seats held by key 2
 			ns := hx.Pick(r, []int{254, 255, 256, 257, 300})
@@ -793,9 +1020,44 @@ func gen(r *hx.Rng, n int, tier string) []string {
 				m.netKey = hx.Pick(r, []int{1, 2})
 				m.msgKey = m.netKey
 			}
+			if ns >= 33 && ns <= 100 && r.Chance(1, 2) {
+				// claim an index at a power-of-two distance from one of the sender's own seats
+				p := r.Range(1, ns)
+				d := hx.Pick(r, []int{-64, -32, -16, -8, -1, 1, 8, 16, 32, 64})
+				if q := p + d; q >= 0 && q <= 255 {
+					m.idx, m.netKey, m.msgKey = uint8(q), seats[p-1], seats[p-1]
+				}
+			}
 			o.msgs = append(o.msgs, m)
 			if step == "done" && r.Chance(1, 3) {
 				o.msgs = append(o.msgs, m) // duplicate done message
+			}
+		}
+		if (step == "annh" || step == "coordh") && ns <= 255 && r.Chance(3, 4) {
+			// one sender: first a seat it holds, then seats of others (and a retransmission)
+			p := r.Range(1, ns)
+			key := seats[p-1]
+			first := msgT{idx: uint8(p), netKey: key, msgKey: key, sess: o.sess, aux1: o.aux1, aux2: o.aux2, sig: true}
+			if len(o.allowed) > 0 {
+				first.action = o.allowed[0]
+			}
+			o.msgs = append(o.msgs, first)
+			for j := r.Range(1, 3); j > 0; j-- {
+				sp := first
+				sp.idx = uint8(r.Range(0, minI(ns+1, 255)))
+				o.msgs = append(o.msgs, sp)
+				if r.Chance(1, 3) {
+					o.msgs = append(o.msgs, first)
+				}
+			}
+			if r.Chance(1, 3) {
+				// interleave with what was generated before
+				pm := r.Perm(len(o.msgs))
+				sh := make([]msgT, len(o.msgs))
+				for a, b := range pm {
+					sh[a] = o.msgs[b]
+				}
+				o.msgs = sh
 			}
 		}
 		ops = append(ops, fmtOp(o))
@@ -806,8 +1068,20 @@ func gen(r *hx.Rng, n int, tier string) []string {
 	return ops
 }
 
+// facts: the compiled width and wrap-around of group.MemberIndex (T1 tie of the UInt8 model).
+func facts() []string {
+	var z group.MemberIndex
+	m := group.MemberIndex(group.MaxMemberIndex)
+	return []string{
+		fmt.Sprintf("nat maxMemberIndex %d", group.MaxMemberIndex),
+		fmt.Sprintf("nat memberIndexBits %d", unsafe.Sizeof(z)*8),
+		fmt.Sprintf("nat zeroMinusOne %d", int(z-1)),
+		fmt.Sprintf("nat maxPlusOne %d", int(m+1)),
+	}
+}
+
 func main() {
-	hx.Main(&hx.Config{Prop: "C12", Gen: gen, Exec: exec})
+	hx.Main(&hx.Config{Prop: "C12", Gen: gen, Exec: exec, Facts: facts})
 }
 
 func maxI(a, b int) int {
